@@ -132,3 +132,112 @@ def orun : ODeb → List OAct → Option ODeb
     | some s' => orun s' as
     | none => none
 end Pool
+
+namespace Pool
+
+/-! ### refreshDebouncer WITH its broadcaster and the refreshNow waiters (host_source.go)
+
+```go
+func (d *refreshDebouncer) refreshNow() <-chan error {            // lock
+    if d.broadcaster == nil { d.broadcaster = newErrorBroadcaster()
+        select { case d.refreshNowCh <- struct{}{}: default: } }
+    return d.broadcaster.newListener() }
+func (d *refreshDebouncer) flusher() { for {
+    select { case <-d.refreshNowCh: case <-d.timer.C: case <-d.quit: }
+    d.mu.Lock()
+    if d.stopped { if d.broadcaster != nil { d.broadcaster.stop(); d.broadcaster = nil }; d.timer.Stop(); unlock; return }
+    drain refreshNowCh; d.timer.Stop(); drain timer.C
+    curBroadcaster := d.broadcaster; d.broadcaster = nil; unlock
+    err := d.refreshFn(); if curBroadcaster != nil { curBroadcaster.broadcast(err) } } }
+```
+Waiters are numbered in the order of their refreshNow() calls. `served` = got the result of a refresh (value, then the
+channel is closed), `shut` = channel closed by broadcaster.stop(). -/
+
+inductive WakeBy where
+  | now | timer | quit
+deriving DecidableEq, Repr
+
+structure WDeb where
+  stopped : Bool
+  quitClosed : Bool
+  token : Bool               -- refreshNowCh (capacity 1) holds its token
+  timerArmed : Bool
+  f : FPc
+  pend : Option (List Nat)   -- d.broadcaster: the listeners of the refresh asked for and not yet started (none = nil)
+  cur : Option (List Nat)    -- curBroadcaster of the refresh being executed
+  served : List Nat
+  shut : List Nat
+  nextW : Nat
+  late : Bool                -- ghost: some refreshNow() ran after the flusher had returned
+deriving DecidableEq, Repr
+
+inductive WAct where
+  | refreshNow | debounce
+  | wake (by_ : WakeBy)   -- flusher: the select takes a ready case (Go picks any ready one)
+  | lock                  -- flusher: takes the mutex, looks at `stopped`
+  | refreshDone           -- refreshFn returned; curBroadcaster.broadcast(err)
+  | stop
+deriving DecidableEq, Repr
+
+def WDeb.init : WDeb :=
+  { stopped := false, quitClosed := false, token := false, timerArmed := false, f := .select, pend := none, cur := none,
+    served := [], shut := [], nextW := 0, late := false }
+
+def ls (o : Option (List Nat)) : List Nat := o.getD []
+
+/-- refreshNow() of the code that exists (`fixed = false`) and of the proposed repair (`fixed = true`: a stopped
+    debouncer hands out a closed channel) -/
+def wRefreshNow (fixed : Bool) (d : WDeb) : WDeb :=
+  if fixed && d.stopped then { d with shut := d.shut ++ [d.nextW], nextW := d.nextW + 1 }
+  else match d.pend with
+    | none => { d with pend := some [d.nextW], token := true, nextW := d.nextW + 1, late := d.late || d.f == .exited }
+    | some l => { d with pend := some (l ++ [d.nextW]), nextW := d.nextW + 1, late := d.late || d.f == .exited }
+
+def wReady (d : WDeb) : WakeBy → Bool
+  | .now => d.token
+  | .timer => d.timerArmed
+  | .quit => d.quitClosed
+
+def wConsume (d : WDeb) : WakeBy → WDeb
+  | .now => { d with token := false }
+  | .timer => { d with timerArmed := false }
+  | .quit => d
+
+def wstepG (fixed : Bool) (d : WDeb) : WAct → Option WDeb
+  | .refreshNow => some (wRefreshNow fixed d)
+  | .debounce => if d.stopped then some d else some { d with timerArmed := true }
+  | .wake b => if d.f = .select ∧ wReady d b then some { wConsume d b with f := .woken } else none
+  | .lock =>
+      if d.f = .woken then
+        if d.stopped then some { d with f := .exited, timerArmed := false, shut := d.shut ++ ls d.pend, pend := none }
+        else some { d with f := .refreshing, token := false, timerArmed := false, cur := d.pend, pend := none }
+      else none
+  | .refreshDone => if d.f = .refreshing then some { d with f := .select, served := d.served ++ ls d.cur, cur := none } else none
+  | .stop => some { d with stopped := true, quitClosed := true }
+
+def wstep : WDeb → WAct → Option WDeb := wstepG false
+def wstepFixed : WDeb → WAct → Option WDeb := wstepG true
+
+def wrunG (fixed : Bool) : WDeb → List WAct → Option WDeb
+  | s, [] => some s
+  | s, a :: as => match wstepG fixed s a with
+    | some s' => wrunG fixed s' as
+    | none => none
+
+def wrun : WDeb → List WAct → Option WDeb := wrunG false
+
+/-- the seeded family: the flusher returns straight from the quit case of its select (lock; timer.Stop(); unlock;
+    return) without the `if d.stopped { broadcaster.stop() … }` block -/
+def wstepQuitReturn (d : WDeb) : WAct → Option WDeb
+  | .wake .quit => if d.f = .select ∧ d.quitClosed then some { d with f := .exited, timerArmed := false } else none
+  | a => wstep d a
+
+def wrunQuitReturn : WDeb → List WAct → Option WDeb
+  | s, [] => some s
+  | s, a :: as => match wstepQuitReturn s a with
+    | some s' => wrunQuitReturn s' as
+    | none => none
+
+def WDeb.released (d : WDeb) (w : Nat) : Prop := w ∈ d.served ∨ w ∈ d.shut
+
+end Pool
